@@ -544,6 +544,10 @@ func (fx *FnExec) knownExternal(st *State, full string, fn *ssa.Function, args [
 				Implies(Ge(r, IntLit(0)), Eq(StrAt(args[0], r), c)))))
 			return []*Term{r}, true
 		}
+	case "sort.Slice":
+		if r, ok := fx.sortSlice(st, args, p); ok {
+			return r, true
+		}
 	case "fmt.Sprintf", "fmt.Sprint", "fmt.Sprintln":
 		v := fx.c.Fresh("sprintf", SStr)
 		fx.assumeType(st, v, tStr)
@@ -587,4 +591,79 @@ func (e *Engine) VerifyAll(units []*Unit, each func(*UnitResult)) {
 		add(r)
 		each(r)
 	}
+}
+
+
+// sortSlice: sort.Slice(x, less) for a slice of integers. The precondition "less(i, j)
+// is x[i] < x[j]" is discharged by executing the closure body on symbolic indices; the
+// effect is the assumed contract of sort.Slice (A6): the elements are permuted (a
+// bijection of the index range) into ascending order, nothing else changes.
+func (fx *FnExec) sortSlice(st *State, args []*Term, p token.Pos) ([]*Term, bool) {
+	call, ok := fx.curInstr.(*ssa.Call)
+	if !ok || len(call.Call.Args) != 2 {
+		return nil, false
+	}
+	mi, ok := call.Call.Args[0].(*ssa.MakeInterface)
+	if !ok {
+		return nil, false
+	}
+	slT, ok := mi.X.Type().Underlying().(*types.Slice)
+	if !ok {
+		return nil, false
+	}
+	if b, ok := slT.Elem().Underlying().(*types.Basic); !ok || b.Info()&types.IsInteger == 0 {
+		return nil, false
+	}
+	ci := closures[args[1].String()]
+	if ci == nil {
+		return nil, false
+	}
+	xs := fx.val(st, mi.X)
+	hn, hs := fx.elemHeapName(slT.Elem())
+	h := fx.heapGet(st, hn, hs)
+	oldArr := Select(h, SlcBase(xs))
+	off, ln := SlcOff(xs), SlcLen(xs)
+	// precondition: less is < on the elements
+	i, j := fx.c.Fresh("srt_i", SInt), fx.c.Fresh("srt_j", SInt)
+	st2 := st.clone()
+	st2.guard = fx.c.Name("g", And(st.guard, Le(IntLit(0), i), Lt(i, ln), Le(IntLit(0), j), Lt(j, ln)))
+	res := fx.inline(st2, ci.fn, nil, []*Term{i, j}, ci.bindings, p)
+	fx.oblig(st2, "call-pre", "sort.Slice:less-is-lt", p, Eq(res[0], Lt(Select(oldArr, Add(off, i)), Select(oldArr, Add(off, j)))))
+	// effect
+	fx.trusted("assumed contract of sort.Slice (A6): given that less(i, j) is x[i] < x[j] (checked at the call), the elements of x are permuted (a bijection of the index range; hence pairwise distinct elements stay pairwise distinct) into ascending order and nothing else changes")
+	newArr := fx.c.Fresh("sorted", oldArr.S)
+	{
+		// the elements are values of the element type
+		kk := Var("k!t", SInt)
+		ek := App("select", oldArr.S.elemSort(), newArr, kk)
+		if inv := fx.typeInv(ek, slT.Elem(), fx.entryAlloc); !inv.IsTrue() {
+			fx.c.Assume(Forall([]*Term{kk}, inv, ek))
+		}
+	}
+	fx.c.nfresh++
+	pi := fmt.Sprintf("perm_%d", fx.c.nfresh)
+	pinv := fmt.Sprintf("perminv_%d", fx.c.nfresh)
+	fx.c.DeclareFun(pi, []Sort{SInt}, SInt)
+	fx.c.DeclareFun(pinv, []Sort{SInt}, SInt)
+	fx.heapSet(st, hn, Store(h, SlcBase(xs), newArr))
+	h2 := fx.heapGet(st, hn, hs)
+	a, b := Var("a!s", SInt), Var("b!s", SInt)
+	inRange := func(x *Term) *Term { return And(Le(IntLit(0), x), Lt(x, ln)) }
+	rdN := func(x *Term) *Term { return fx.elemAt(h2, xs, x) }
+	rdO := func(x *Term) *Term { return fx.elemAt(h, xs, x) }
+	piA, pinvB := App(pi, SInt, a), App(pinv, SInt, b)
+	k := Var("k!s", SInt)
+	es := oldArr.S.elemSort()
+	fx.c.Assume(Implies(st.guard, And(
+		// ascending
+		Forall([]*Term{a, b}, Implies(And(Le(IntLit(0), a), Lt(a, b), Lt(b, ln)), Le(rdN(a), rdN(b))), rdN(a), rdN(b)),
+		// a permutation of the old contents: new[a] == old[pi(a)], pi a bijection of the index range
+		Forall([]*Term{a}, Implies(inRange(a), And(Eq(rdN(a), rdO(piA)), inRange(piA), Eq(App(pinv, SInt, piA), a))), rdN(a)),
+		Forall([]*Term{b}, Implies(inRange(b), And(inRange(pinvB), Eq(App(pi, SInt, pinvB), b), Eq(rdN(pinvB), rdO(b)))), rdO(b)),
+		// consequence of bijectivity: pairwise distinct elements stay pairwise distinct
+		Implies(Forall([]*Term{a, b}, Implies(And(Le(IntLit(0), a), Lt(a, b), Lt(b, ln)), Neq(rdO(a), rdO(b))), rdO(a), rdO(b)),
+			Forall([]*Term{a, b}, Implies(And(Le(IntLit(0), a), Lt(a, b), Lt(b, ln)), Neq(rdN(a), rdN(b))), rdN(a), rdN(b))),
+		// outside the slice nothing changes
+		Forall([]*Term{k}, Implies(Not(And(Le(off, k), Lt(k, Add(off, ln)))), Eq(App("select", es, newArr, k), App("select", es, oldArr, k))), App("select", es, newArr, k)))))
+	return []*Term{}, true
 }
